@@ -32,7 +32,8 @@ var sigHdrDefs = []sigHdrDef{
 // alternative values of fingerprinted strings whose character-class signature is zero or minimal
 var sigValVariants = map[sipsp.HdrT][]string{
 	sipsp.HdrVia: {"SIP/2.0/UDP h;branch=z9hG4bKabc", "SIP/2.0/UDP h:5060;rport", "SIP/2.0/UDP h;rport;branch=z9hG4bK.a-b_c, SIP/2.0/TCP other;branch=zzz9", "SIP/2.0/UDP h;branch=z9hG4bKabc123def ,SIP/2.0/UDP o2",
-		"SIP/2.0/UDP a, SIP/2.0/UDP b;branch=z9hG4bKx.y-z", "SIP/2.0/UDP a ,SIP/2.0/TCP b;rport;branch=q-1"},
+		"SIP/2.0/UDP a, SIP/2.0/UDP b;branch=z9hG4bKx.y-z", "SIP/2.0/UDP a ,SIP/2.0/TCP b;rport;branch=q-1",
+		"SIP/2.0/UDP h;ext=\"a,b\";branch=z9hG4bK-77ef_4c21.x", "SIP/2.0/UDP h;ext=\"a;branch=zz\\\",\" ;BRANCH = z9hG4bK.1-2 ;x=\",\", SIP/2.0/UDP o;branch=other.1"},
 	sipsp.HdrCallID: {"abc", "x@y"},
 	sipsp.HdrFrom:   {"<sip:a@b>;tag=t", "sip:a@b"},
 }
@@ -111,11 +112,7 @@ func (cs *c19Case) render() (msg []byte, nh int, want []sipsp.HdrSigId, cid, via
 			cid = val
 		}
 		if d.Type == sipsp.HdrVia {
-			// the branch signature is that of the FIRST Via value: a comma starts another value
-			via = val
-			if k := strings.IndexByte(val, ','); k >= 0 {
-				via = strings.TrimRight(val[:k], " ")
-			}
+			via = val // the whole header value; refViaBranch finds the first value's branch
 		}
 	}
 	filler(len(cs.Order))
@@ -182,6 +179,7 @@ func evalC19(cs *c19Case) (vs []*Violation) {
 		c.Extra = map[string]any{"case": cs}
 		vs = append(vs, &Violation{Property: "C19", Site: "GetMsgSig", Rule: rule, Class: class, Detail: detail, Case: c})
 	}
+	defer recoverTo3(add)
 	if nh == 0 {
 		return // a message without any header is rejected by the parser (empty header block): nothing to sign
 	}
@@ -240,11 +238,13 @@ func evalC19(cs *c19Case) (vs []*Violation) {
 	if sig.CidSig != cs0 || sig.CidSLen != cl0 {
 		add("call-id-character-classes", "cid", fmt.Sprintf("CidSig=%#x,%d want %#x,%d", sig.CidSig, sig.CidSLen, cs0, cl0))
 	}
-	// the first Via value is the text before the first ',' (the generator's Via strings have no quoted commas)
-	if i := strings.IndexByte(via, ','); i >= 0 {
-		via = via[:i]
+	// expected class: that of the branch parameter of the first Via value, found by an independent quote-aware
+	// scan, computed on the canonical text "v;branch=<value>" (so that neither other parameters nor further
+	// values take part)
+	var vb sipsp.StrSigId
+	if br, ok := refViaBranch(via); ok {
+		vb, _ = sipsp.GetViaBrSig([]byte("v;branch=" + br))
 	}
-	vb, _ := sipsp.GetViaBrSig([]byte(via))
 	if sig.ViaBSig != vb {
 		add("first-via-branch-character-classes", "via", fmt.Sprintf("ViaBSig=%#x want %#x", sig.ViaBSig, vb))
 	}
@@ -274,6 +274,37 @@ func evalC19(cs *c19Case) (vs []*Violation) {
 		add("unchanged-by-unfingerprinted-differences", cl, fmt.Sprintf("sig %q base %q", sig.String(), bsig.String()))
 	}
 	return
+}
+
+// refViaBranch: value of the first "branch" parameter of the first comma-separated Via value (quote-aware).
+func refViaBranch(via string) (string, bool) {
+	cut := func(t string, sep byte) []string {
+		var out []string
+		q, start := false, 0
+		for i := 0; i < len(t); i++ {
+			switch {
+			case q && t[i] == '\\':
+				i++
+			case t[i] == '"':
+				q = !q
+			case !q && t[i] == sep:
+				out = append(out, t[start:i])
+				start = i + 1
+			}
+		}
+		return append(out, t[start:])
+	}
+	first := cut(via, ',')[0]
+	for _, p := range cut(first, ';')[1:] {
+		nv := strings.SplitN(p, "=", 2)
+		if strings.EqualFold(strings.Trim(nv[0], " \t\r\n"), "branch") {
+			if len(nv) == 1 {
+				return "", false
+			}
+			return strings.Trim(nv[1], " \t\r\n"), true
+		}
+	}
+	return "", false
 }
 
 func perms(n int) [][]int {
@@ -364,7 +395,7 @@ func checkC19(r *Run) {
 					cms = []int{0, 1<<len(ord) - 1, (oi*37 + mi*11) % (1 << len(ord)), 0x55 & (1<<len(ord) - 1)}
 				}
 				for _, cm := range cms {
-					base := c19Case{Method: meth, Order: ord, Compact: cm, Repeat: -1, Cap: 40, Cut: -1, Var: (oi + mi + cm) % 7}
+					base := c19Case{Method: meth, Order: ord, Compact: cm, Repeat: -1, Cap: 40, Cut: -1, Var: (oi + mi + cm) % 9}
 					run(c, &base)
 					if (oi+mi+cm)%r.pick(5, 2) != 0 {
 						continue
